@@ -279,9 +279,23 @@ func run7(c *fw.Ctx) {
 		return
 	}
 	fps := make([]string, len(bcs))
+	deep := make([]string, len(bcs))
 	for i, bc := range bcs {
 		fps[i] = bcv.Fingerprint(bc)
+		deep[i] = bcv.DeepFingerprint(bc)
 	}
+	// at the end of the worker's share: nothing reachable from a Bytecode - unexported fields included - was written
+	defer func() {
+		if c.Shard != 0 {
+			return
+		}
+		all := append(append([]script{}, scripts...), probes...)
+		for i, bc := range bcs {
+			if bcv.DeepFingerprint(bc) != deep[i] {
+				c.Violation("bytecode-modified-deep script="+all[i].name, "executing wrote to something reachable from the Bytecode (an unexported field: a cache?)", nil)
+			}
+		}
+	}()
 	observed := append(append([]script{}, scripts...), probes...)
 	// reference outcomes on new VMs, for recover on and off
 	fresh := map[bool][]outcome{}
